@@ -81,6 +81,15 @@ def generate(seed, tier, cfg):
             used.add(n["note_off"])
             controls.append({"type": "sustain_pedal", "number": 64, "time": n["note_off"], "value": 127, "track": 0, "channel": 0})
             controls.append({"type": "sustain_pedal", "number": 64, "time": n["note_off"] + w.choice((0.5, 1.5, 3.0)), "value": 0, "track": 0, "channel": 0})
+    if not late and k.random() < 0.1:
+        # a long take: some of the events happen a thousand seconds (about seventeen minutes) after the others
+        for n in notes:
+            if w.random() < 0.5:
+                n["note_on"] += 1000.0
+                n["note_off"] += 1000.0
+        for c in controls:
+            if w.random() < 0.5:
+                c["time"] += 1000.0
     if late:
         # a passage late in a long recording: the same events ten minutes to an hour in, with the pedal lifted a few
         # milliseconds after a release (absolute times are large, the differences that matter stay small)
@@ -121,7 +130,7 @@ def generate(seed, tier, cfg):
         elif x < 0.95:
             ops.append({"k": "rebuild"})
         else:
-            ops.append({"k": "wrap", "extra_tracks": o.choice(((0,), (0, 1), (1, 3))), "meta_track": o.choice((None, None, 5, 2)), "pedal_only": o.choice((0, 0, 1, 2, 3))})
+            ops.append({"k": "wrap", "extra_tracks": o.choice(((0,), (0, 1), (1, 3), (16, 17), (17, 1, 33))), "meta_track": o.choice((None, None, 5, 2)), "pedal_only": o.choice((0, 0, 1, 2, 3))})
     return {"notes": notes, "controls": controls, "ops": ops, "route": cfg, "knobs": {"ppq": k.choice((480, 960, 96, 1)), "mpq": k.choice((500000, 600000, 250000)), "thr0": k.choice((64, 64, 0, 127, 100)), "late": late}}
 
 
